@@ -265,6 +265,29 @@ theorem from_vector_ok (hk : SvdKernel k) (htol : 0 ≤ tol) (htol1 : tol < 1) {
     ∃ ψ, MPS.fromVector k d n v tol = .ok ψ :=
   fromVector_ok hk htol htol1 hd hn hvl hne
 
+/-- **8b.** (after the repair of F12) `MPS.from_vector` returns for EVERY vector of length `d^nsites` (`d, nsites ≥ 1`)
+and every tolerance: also for the zero vector -- all singular values are then discarded by the rule and the code keeps a
+dummy bond of dimension one -- and for `tol ≥ 1`. -/
+theorem from_vector_total (hk : SvdKernel k) {d n : Nat} (hd : 0 < d) (hn : 0 < n) {v : List 𝕜}
+    (hvl : v.length = d ^ n) : ∃ ψ, MPS.fromVector k d n v tol = .ok ψ :=
+  fromVector_total hk hd hn hvl
+
+/-- **8c.** zero tolerance, every vector (zero vector included): the call returns and reproduces the vector exactly. -/
+theorem from_vector_tol0_total (hk : SvdKernel k) {d n : Nat} (hd : 0 < d) (hn : 0 < n) {v : List 𝕜}
+    (hvl : v.length = d ^ n) :
+    ∃ ψ, MPS.fromVector k d n v (0 : ℝ) = .ok ψ ∧ ∀ s ∈ digitsU d n, ψ.amp s = v.getD (flat d s) 0 := by
+  obtain ⟨ψ, h⟩ := fromVector_total (tol := (0 : ℝ)) hk hd hn hvl
+  refine ⟨ψ, h, ?_⟩
+  have hb := fromVector_bound hk (le_refl (0 : ℝ)) h
+  rw [mul_zero, zero_mul] at hb
+  have h0 : ∀ s ∈ digitsU d n, ‖ψ.amp s - v.getD (flat d s) 0‖ ^ 2 = 0 :=
+    (Finset.sum_eq_zero_iff_of_nonneg (fun s _ => by positivity)).1
+      (le_antisymm hb (Finset.sum_nonneg fun s _ => by positivity))
+  intro s hs
+  have := h0 s hs
+  rw [pow_eq_zero_iff (by norm_num), norm_eq_zero, sub_eq_zero] at this
+  exact this
+
 /-! ## Non-vacuity
 
 Kernels: `QrExists.fullQR` over `ℝ` / `Ortho.realQR` over `ℂ` satisfy `C01.QRKernel` (see C01);
@@ -343,5 +366,18 @@ example : (∀ ε ∈ ([1 / 4, 1 / 2] : List ℝ), 0 ≤ ε ∧ ε ≤ 1) := by
   intro ε hε
   simp only [List.mem_cons, List.mem_nil_iff, or_false] at hε
   rcases hε with rfl | rfl <;> constructor <;> norm_num
+
+/-- non-vacuity of `from_vector_total`, `from_vector_tol0_total`: the ZERO vector on two sites of dimension two over `ℝ`
+(the input on which the unrepaired code raised `AssertionError`, F12), kernels `exKernels ℝ` -/
+example : ∃ ψ : MPS ℝ, MPS.fromVector (exKernels ℝ) 2 2 ([0, 0, 0, 0] : List ℝ) (0 : ℝ) = .ok ψ ∧
+    ∀ s ∈ digitsU 2 2, ψ.amp s = 0 := by
+  obtain ⟨ψ, h, hv⟩ := from_vector_tol0_total (exKernels_kernel (𝕜 := ℝ)) (d := 2) (n := 2) (by norm_num) (by norm_num)
+    (v := [0, 0, 0, 0]) (by simp)
+  refine ⟨ψ, h, fun s hs => ?_⟩
+  rw [hv s hs]
+  have : ∀ c, ([0, 0, 0, 0] : List ℝ).getD c 0 = 0 := by
+    intro c
+    rcases c with _ | _ | _ | _ | c <;> simp
+  exact this _
 
 end Ptn.C13
